@@ -885,6 +885,32 @@ def load_corpus(L):
     return cases
 
 
+JSON_TEXTS = [
+    # invalid UTF-8 (each offending byte becomes U+FFFD in Go and in the model; value changes, outside the clause)
+    b"\xff",                                  # the witness of C01_json_without_utf8_refuted
+    b"\x80", b"a\xffb\xfe", b"\xc2", b"\xc0\x80", b"\xc1\xbf", b"\xe0\x80\x80", b"\xe0\x9f\xbf", b"\xe2\x82a",
+    b"\xed\xa0\x80", b"\xed\xbf\xbf", b"\xf0\x8f\xbf\xbf", b"\xf0\x90\x80", b"\xf4\x90\x80\x80", b"\xf5\x80\x80\x80",
+    b"\xf8\x88\x80\x80\x80", b"ok\xe2\x82\xac\xe2\x82", b"\xc3\xa9\xa9",
+    # valid boundary sequences and characters encoding/json escapes (kept; value unchanged)
+    b"\xc2\x80\xdf\xbf", b"\xe0\xa0\x80\xed\x9f\xbf\xee\x80\x80\xef\xbf\xbf", b"\xf0\x90\x80\x80\xf4\x8f\xbf\xbf",
+    b"\xef\xbf\xbd", b"\xe2\x80\xa8\xe2\x80\xa9", bytes(range(0, 128)), b"\"\\/<>&\b\f\n\r\t\x7f",
+]
+
+
+def json_extra_cases(L):
+    """C01, JSON clause: every container with a text field, with texts that exercise the UTF-8 rule"""
+    out = []
+    for c in L.all:
+        for i, f in enumerate(c["named"]):
+            if f["kind"] != "string":
+                continue
+            for txt in JSON_TEXTS:
+                v = copy.deepcopy(L.zero(c))
+                v[2][i] = ['B', txt]
+                out.append(G.make_case(L, c, v, "json-extra:" + f["name"]))
+    return out
+
+
 def run(pid, tier, seed, replay, title_assumptions):
     res = vlib.Result(pid, tier, seed)
     res.assumptions = vlib.TRUSTED_COMMON + title_assumptions
@@ -923,6 +949,9 @@ def run(pid, tier, seed, replay, title_assumptions):
         cases = load_corpus(L)
         have = set(cs["hash"] for cs in cases)
         cases += [cs for cs in G.Gen(L, seed, tier).generate() if cs["hash"] not in have]
+        if pid == "C01":
+            have = set(cs["hash"] for cs in cases)
+            cases += [cs for cs in json_extra_cases(L) if cs["hash"] not in have]
     t_gen = time.time() - t0
 
     # ---- step 1+2: Go alone, then correspondence with the oracle (clearly separated inside evaluate)
